@@ -109,8 +109,33 @@ func c02Siblings(r *Run) {
 	spies := make([]*SpySigner, n)
 	r.Op("ISSUE", "%d header-less Sign1 messages signed with one %s signer", n, k.Name)
 	r.Outcome("siblings")
+	// some applications sign one payload several times with different
+	// unprotected headers (a kid for this receiver, an algorithm hint for
+	// that one): none of that reaches the signer
+	same := t.Bool(1, 2, "c02.sib.samepayload")
+	var shared []byte
+	if same {
+		shared = t.Bytes(1+t.Choose(20, "c02.sib.payload.n"), "c02.sib.payload")
+		r.Fired("app.same-payload-other-unprotected")
+	}
 	for i := range msgs {
-		msgs[i] = &cose.Sign1Message{Payload: t.Bytes(1+t.Choose(20, "c02.sib.payload.n"), "c02.sib.payload")}
+		if same {
+			msgs[i] = &cose.Sign1Message{Payload: shared}
+			switch t.Choose(6, "c02.sib.unprot") {
+			case 1:
+				msgs[i].Headers.Unprotected = cose.UnprotectedHeader{cose.HeaderLabelKeyID: []byte{byte(i)}}
+			case 2:
+				msgs[i].Headers.Unprotected = cose.UnprotectedHeader{cose.HeaderLabelAlgorithm: cose.Algorithm(k.Alg)}
+			case 3:
+				msgs[i].Headers.Unprotected = cose.UnprotectedHeader{cose.HeaderLabelAlgorithm: k.Alg, cose.HeaderLabelKeyID: []byte("k")}
+			case 4:
+				msgs[i].Headers.Unprotected = cose.UnprotectedHeader{int(1): int(k.Alg)}
+			case 5:
+				msgs[i].Headers.Unprotected = cose.UnprotectedHeader{cose.HeaderLabelContentType: "text/plain", int64(-70000): []any{int64(i), "x"}}
+			}
+		} else {
+			msgs[i] = &cose.Sign1Message{Payload: t.Bytes(1+t.Choose(20, "c02.sib.payload.n"), "c02.sib.payload")}
+		}
 		spies[i] = &SpySigner{Inner: r.signerFor(k, false), Alg: cose.Algorithm(k.Alg)}
 		var err error
 		if untagged {
@@ -122,6 +147,17 @@ func c02Siblings(r *Run) {
 			r.Outcome("sibling-sign-refused")
 			return
 		}
+	}
+	if same {
+		for i := 1; i < n; i++ {
+			r.Check()
+			if !bytes.Equal(spies[i].Calls[0].Content, spies[0].Calls[0].Content) {
+				r.Fail("sign-content-depends-on-unprotected", "one payload signed with one key in messages that differ only in their unprotected headers: signer %d was handed other bytes than signer 0\n 0: %s (unprotected %v)\n %d: %s (unprotected %v)",
+					i, hexShort(spies[0].Calls[0].Content), msgs[0].Headers.Unprotected, i, hexShort(spies[i].Calls[0].Content), msgs[i].Headers.Unprotected)
+				return
+			}
+		}
+		r.Probe("same-payload-siblings-compared")
 	}
 	// the application goes on working with one of them (recycles the holder
 	// for the next job: another content type, a kid)
@@ -171,6 +207,10 @@ func scenarioC02(r *Run) {
 	t := r.T
 	if t.Bool(1, 14, "c02.siblings") {
 		c02Siblings(r)
+		return
+	}
+	if t.Bool(1, 20, "c02.customraw") {
+		c02CustomRaw(r)
 		return
 	}
 	so := SpecOpts{MaxExtra: 6, MaxSigner: 4, BigOK: bigOK(r, "c02.big")}
@@ -592,3 +632,93 @@ func sigBytesAt(m *refcose.Msg, i int) []byte {
 func sameSignatureCount(a, b *refcose.Msg) bool { return len(a.Sigs) == len(b.Sigs) }
 
 var _ = fmt.Sprintf
+
+// c02CustomRaw: the documented "customized encoding" path - the application
+// supplies the protected bucket as raw bytes (a byte string it spelt itself,
+// with any head width, or in chunks) on a message built in memory.  Whatever
+// spelling the library accepts, what the signer and the verifier are handed is
+// the RFC structure over the bytes INSIDE that byte string.
+func c02CustomRaw(r *Run) {
+	t := r.T
+	ent := NewEntropy(uint64(t.U32("entropy.seed")))
+	k := pickCheapKey(t)
+	inner := refcbor.Map(refcbor.Uint(refcose.LAlg), refcbor.Int(k.Alg))
+	if t.Bool(1, 2, "c02.raw.extra") {
+		inner = refcbor.Map(refcbor.Uint(refcose.LAlg), refcbor.Int(k.Alg), refcbor.Uint(3), refcbor.Tstr("text/"+genText(t, 8)))
+	}
+	mapBytes := refcbor.Encode(inner)
+	bs := refcbor.Bstr(mapBytes)
+	spelling := t.Choose(4, "c02.raw.spelling")
+	switch spelling {
+	case 1:
+		bs.Width = []int{1, 2, 4, 8}[t.Choose(4, "c02.raw.width")]
+	case 2, 3:
+		bs.Indef = true
+		cut := t.Choose(len(mapBytes)+1, "c02.raw.cut")
+		bs.Chunks = []*refcbor.Item{refcbor.Bstr(mapBytes[:cut]), refcbor.Bstr(mapBytes[cut:])}
+		r.Fired("app.raw-protected-in-chunks")
+	}
+	raw := refcbor.Encode(bs)
+	prot := cose.ProtectedHeader{cose.HeaderLabelAlgorithm: cose.Algorithm(k.Alg)}
+	if len(inner.Elems) > 2 {
+		prot[cose.HeaderLabelContentType] = string(inner.Elems[3].Data)
+	}
+	payload := t.Bytes(1+t.Choose(20, "c02.raw.payload.n"), "c02.raw.payload")
+	r.Op("ISSUE", "Sign1 built in memory with application-supplied raw protected bytes %x", raw)
+	r.Outcome("custom-raw")
+	want := refcose.SigStructure1(mapBytes, nil, payload)
+	sign := t.Bool(1, 2, "c02.raw.sign")
+	msg := &cose.Sign1Message{Headers: cose.Headers{RawProtected: raw, Protected: prot}, Payload: payload}
+	if sign {
+		sp := &SpySigner{Inner: r.signerFor(k, false), Alg: cose.Algorithm(k.Alg)}
+		var err error
+		r.Lib(func() { err = msg.Sign(ent, nil, sp) })
+		r.Check()
+		if len(sp.Calls) > 0 && !bytes.Equal(sp.Calls[0].Content, want) {
+			r.Fail("sign-content-differs/custom-raw-protected", "Sign1Message with application-supplied raw protected bytes %x: the signer was handed bytes other than the RFC structure over the bytes inside that byte string\n got: %s\nwant: %s", raw, hexShort(sp.Calls[0].Content), hexShort(want))
+			return
+		}
+		if err != nil {
+			r.Outcome("custom-raw-refused")
+		} else {
+			r.Probe("custom-raw-signed-compared")
+		}
+		return
+	}
+	// verification: a good signature over the reference structure, attached
+	// to a message object holding the custom raw bytes
+	var sig []byte
+	var serr error
+	r.Lib(func() { sig, serr = r.signerFor(k, false).Sign(ent, want) })
+	if serr != nil {
+		return
+	}
+	msg.Signature = sig
+	sv := &SpyVerifier{Inner: r.verifierFor(k, false), Alg: cose.Algorithm(k.Alg)}
+	var verr error
+	r.Lib(func() { verr = msg.Verify(nil, sv) })
+	r.Check()
+	if len(sv.Calls) > 0 && !bytes.Equal(sv.Calls[0].Content, want) {
+		r.Fail("verify-content-differs/custom-raw-protected", "Sign1Message with application-supplied raw protected bytes %x: the verifier was handed bytes other than the RFC structure over the bytes inside that byte string\n got: %s\nwant: %s", raw, hexShort(sv.Calls[0].Content), hexShort(want))
+		return
+	}
+	// the same through the COSE_Signature entry points that take
+	// body_protected as an argument
+	sg := &cose.Signature{Headers: cose.Headers{Protected: cose.ProtectedHeader{cose.HeaderLabelAlgorithm: cose.Algorithm(k.Alg)}}}
+	sp := &SpySigner{Inner: r.signerFor(k, false), Alg: cose.Algorithm(k.Alg)}
+	var err2 error
+	r.Lib(func() { err2 = sg.Sign(ent, sp, raw, payload, nil) })
+	r.Check()
+	if len(sp.Calls) > 0 {
+		want2 := refcose.SigStructure(mapBytes, refcbor.Encode(refcbor.Map(refcbor.Uint(refcose.LAlg), refcbor.Int(k.Alg))), nil, payload)
+		if !bytes.Equal(sp.Calls[0].Content, want2) {
+			r.Fail("sign-content-differs/custom-body-protected-argument", "Signature.Sign with body_protected %x: the signer was handed bytes other than the RFC structure over the bytes inside that byte string\n got: %s\nwant: %s", raw, hexShort(sp.Calls[0].Content), hexShort(want2))
+			return
+		}
+	}
+	if verr != nil || err2 != nil {
+		r.Outcome("custom-raw-refused")
+	} else {
+		r.Probe("custom-raw-verified-compared")
+	}
+}
